@@ -95,6 +95,25 @@ CLAIMED = {
         text="Kernel-checked: C17_to_records_is_postprocess, C17_copies_identical, C17_parents, C17_open_span_closed_at_collect. Tie: random forests captured by LocalCollector, pushed to several parents across traces and converted with to_span_records; copies compared id-by-id.",
         note="Open finding D10 when two of the N parents share a trace. Absolute times use different anchors (durations compared with tolerance).",
         design="§4 C17"),
+
+    "C09": dict(
+        technique="Lean 4: step-granularity channel model with universally quantified pop placements; refinement-to-queue theorem, forced-never-dropped, FIFO, lossy-only-when-full, capacity, drop-sublist; differential on the real spsc::bounded(k) with pops injected before individual ring pushes (SenderBeforePush hook), exhaustive short sequences; overload scenarios on the real 10240-slot queue",
+        text="Kernel-checked for every capacity and every interleaving of the sender's individual ring pushes with consumer pops: C09_channel_is_a_queue (received ++ ring ++ parked grows by exactly the accepted value), C09_forced_never_dropped, C09_forced_fifo (finish/cancel signals exactly once, in order, never overtaken: D2 fix), C09_lossy_only_when_full, C09_capacity, C09_pops_preserve, C09_drop_sublist (thread exit only deletes). Local limits: C07_queue_at_limit / C07_scope_at_limit. "
+             "Tie: the real Sender/Receiver with capacities 1-8: all op sequences up to length 4 (quick) / 6 (thorough) over {send, force_send, pop, force_send with a pop before every push} plus random longer ones with random pop placements and sender drop, compared with the model and checked by an independent FIFO oracle; four scenarios that fill the real 10240-slot queue (cancel / finish / start while full, recovery afterwards) compared with the system model and with explicit expectations.",
+        note="Open finding D3: Sender::drop at thread exit loses parked commands when the ring is full (C09 limits itself to 'while the thread lives'; witness in Props/C09.lean). rtrb is modelled as a FIFO with exact capacity.",
+        design="§4 C09"),
+    "C13": dict(
+        technique="Lean 4: frame theorem extended to adapter calls (Blk.adCall), local-parent-during-poll, finish-once, guard-before-span (D5 fix), enter_on_poll = one local span per poll; differential with driver-scripted inner futures polled by hand on any thread; impl-only scenarios with a collector cycle between the queue pushes of the finishing call",
+        text="Kernel-checked: C13_local_parent_during_poll, C13_context_restored (for every well-nested inner behaviour, any thread), C13_finishes_iff, C13_finish_once, C13_drop_finishes_if_held, C13_guard_before_span, C13_enter_on_poll. "
+             "Tie: programs with adapters created from arbitrary spans (incl. roots), any number of Pending polls, migration between threads, nesting of adapters, drop before completion, cycles inside polls, both configurations; oracles: exactly-once/tree/contexts incl. probes inside and after polls; plus the D5 witness family (cycle before the 1st/2nd/3rd push of the finishing call).",
+        note="The cycle-inside-the-finishing-call schedules are finer than the model's operation granularity and are checked on the implementation only.",
+        design="§4 C13"),
+    "C14": dict(
+        technique="Lean 4: C13's theorems are kind-agnostic; finishing table for poll_next / poll_close proved; differential with scripted Stream/Sink inners (futures-core / futures-sink) on all five methods",
+        text="Kernel-checked: C14_stream_finishes_iff, C14_sink_finishes_iff, C14_sink_other_calls_never_finish, C14_stream_items_never_finish, C14_local_parent_during_call, C14_context_restored (+ C13_finish_once, C13_guard_before_span, C13_drop_finishes_if_held which do not depend on the adapter kind). "
+             "Tie: as C13 with the call alphabets poll_next and poll_ready/start_send/poll_flush/poll_close incl. error results.",
+        note="fastrace-futures has no tests in the pinned suite; everything here is new coverage.",
+        design="§4 C14"),
 }
 
 REASON_PENDING = "not claimed yet in this revision: model/harness slice for this property is still being built (see DESIGN.md §6 work order)"
